@@ -916,12 +916,17 @@ class VmapBatchHandler:
 
             def lanewise_sampler(key, *a, sample_shape=(), **kw):
                 keys = jrand.split(key, n)
-                return jax.vmap(
+                lanes = jax.vmap(
                     lambda k, a_, kw_: base_sampler(
                         k, *a_, sample_shape=sample_shape, **kw_
                     ),
                     in_axes=(0, tuple(arg_axes), dict(kwarg_axes)),
                 )(keys, tuple(a), dict(kw))
+                # keep the sampler's shape law: sample_shape first, then the lanes
+                # (an enclosing vectorisation prepends to sample_shape)
+                return jtu.tree_map(
+                    lambda x: jnp.moveaxis(x, 0, len(tuple(sample_shape))), lanes
+                )
 
             new_config = SamplerConfig(
                 keyful_sampler=lanewise_sampler,
@@ -932,7 +937,7 @@ class VmapBatchHandler:
                 primitive_params=dict(self.config.primitive_params),
             )
             result = create_sample_primitive(new_config)(*args, **kwargs)
-            return (result,), (0,)
+            return (result,), (len(self.config.sample_shape),)
 
         outer_batch_dim = self._compute_outer_batch_dim(n, axis_size)
         new_sample_shape = outer_batch_dim + self.config.sample_shape
